@@ -522,4 +522,22 @@ mutual
         | none => cbfPassesEmptyKids lang f es rest (si + 1) saw
 end
 
+/-! ## Widths of the cursor's and the iterators' index fields (tie of the ℕ-valued ports to the C structs)
+
+The ports of tree_cursor.c / node.c keep child index, structural child index and descendant index in `Nat`; the C code in
+`uint32_t` fields of `TreeCursorEntry`, `CursorChildIterator`, `NodeChildIterator`.  These grow with the document
+(`descendant_index` up to the number of visible nodes, `child_index` up to a node's raw fan-out), so each must hold every
+32-bit value for the ports' arithmetic to be the code's on documents < 4 GiB (`cursor_prev_sibling_spec` states the
+< 2³² assumption).  `tsv-cunit_c02 cwidths` measures the real fields. -/
+def assumedCursorBits : List (String × Nat) :=
+  [("entry_child_index", 32), ("entry_structural_child_index", 32), ("entry_descendant_index", 32),
+   ("citer_child_index", 32), ("citer_structural_child_index", 32), ("citer_descendant_index", 32),
+   ("niter_child_index", 32), ("niter_structural_child_index", 32), ("current_descendant_index", 32)]
+
+def cursorWidthFails (measured : List (String × Nat)) : List String :=
+  assumedCursorBits.filterMap fun (name, w) =>
+    match measured.lookup name with
+    | some v => if C02.bitsOfMax v ≥ w then none else some s!"{name}: holds {C02.bitsOfMax v} bits (max {v}), the ports assume >= {w}"
+    | none => some s!"{name}: not measured"
+
 end TsVerif.C06
